@@ -543,6 +543,8 @@ func runC16(r *Report) {
 		c.r7("R2")
 		c.r2("R2")
 	}
+	// … and the buffer an upload's payload lives in goes back to the pool once
+	bufferOnce(r, "R6")
 	_ = types.Typ
 }
 
